@@ -218,7 +218,9 @@ def body(chk):
         chk.rng.shuffle(core)
         # fixed part of the quick tier: the pairs in which both items carry the state a detector may keep per contract (constructor before / after a
         # function, selfdestruct with / without guard, a type name used / declared)
-        core = [t for t in core if ('kill' in t[0] and 'kill' in t[1]) or ('user_typed' in t[0] + t[1] and 'enum' in t[0] + t[1]) or ('ctor' in t[0] and 'ctor' in t[1] and t[2] == 'first')] + core
+        core = [t for t in core if ('kill' in t[0] and 'kill' in t[1]) or ('user_typed' in t[0] + t[1] and 'enum' in t[0] + t[1]) or ('ctor' in t[0] and 'ctor' in t[1] and t[2] == 'first')
+                or (t[2] == 'first' and t[1] in ('contract_rich', 'contract_constants', 'contract_struct_with_user_typed_field') and t[0] in ('contract_ctor_first', 'contract_ctor_after_fn', 'contract_kill_guarded', 'contract_kill_unguarded'))
+                or (t[2] == 'first' and 'contract_packable' in (t[0], t[1]) and (set((t[0], t[1])) & {'contract_ctor_after_fn', 'contract_ctor_first', 'contract_kill_guarded', 'contract_constants', 'contract_rich', 'struct'}))] + core
         core = list(dict.fromkeys(core))
         bodyless = [t for t in todo if t[2] == 'first' and 'bodyless' in t[0] and t[1] in ('contract_rich', 'free_function', 'library', 'contract_memory_params', 'empty_contract')] \
             + [t for t in todo if t[2] == 'first' and 'bodyless' in t[1] and t[0] in ('contract_memory_params', 'free_function')]
@@ -226,7 +228,8 @@ def body(chk):
         frees = [t for t in todo if t[2] == 'first' and 'free_function_erc20' in (t[0], t[1]) and (set((t[0], t[1])) & {'library', 'library_public_functions', 'interface', 'contract_rich', 'struct', 'empty_contract'})]
         bodyless = bodyless + libs + frees
         core = bodyless + core
-        todo = list(dict.fromkeys(core[:44 + len(bodyless)] + todo[:40] + unicode_first[:6]))
+        # every pair with the pragma in front (the draw decides nothing there), plus 40 seeded ones of the other pragma placements
+        todo = list(dict.fromkeys(core[:68 + len(bodyless)] + [t for t in todo if t[2] == 'first'] + [t for t in todo if t[2] != 'first'][:40] + unicode_first[:6]))
     chk.bounds = {'files': '%d pairs of top-level items x %d detectors' % (len(todo), len(DETECTORS)),
                   'items': kinds, 'pragma': 'before, between and after the items; versions on both sides of the 0.8.4 gate',
                   'outside': 'more than two items; items that mention each other\'s state variables (excluded by the property)'}
